@@ -2647,11 +2647,24 @@ func (db *DB) checkpointWithExecutor(ctx context.Context, mode string, exec *syn
 		// WAL and overwrites it.
 		if !restartedBeforeCheckpoint {
 			verifTrace(db, "pt.ckpt.postcopy")
+
+			// If the WAL is restarted or truncated before this copy reads
+			// its header, frames committed while the read lock was released
+			// may be gone, and a copy that continued from the new header
+			// would leave a level-0 file that carries the live salts over
+			// that gap (found as such by the next process if this one dies
+			// before the header check below). Have the copy snapshot a WAL
+			// other than the one synced so far, like a session that has not
+			// reached the end of the WAL yet.
+			reachedWALEnd := exec.state.reachedWALEnd
+			exec.state.reachedWALEnd = false
+			exec.state.syncedToWALEnd = false
 			result, err = db.verifyAndSyncWithExecutor(ctx, true, exec, 0)
 			if err != nil {
 				return false, fmt.Errorf("cannot copy wal after checkpoint: %w", err)
 			}
 			exec.applySyncResult(result)
+			exec.state.reachedWALEnd = exec.state.reachedWALEnd || reachedWALEnd
 			verifTrace(db, "pt.ckpt.postcopied")
 
 			// The WAL may also have been restarted between the header read
